@@ -423,6 +423,23 @@ type Evidence struct {
 	Violations  int                    `json:"violations"`
 }
 
+// boundsText is the registered bound of the tier; for checks with a rotating
+// quick tier both tiers are described from the "quick" text.
+func boundsText(def *CheckDef, tier string) interface{} {
+	if def.Rotate == nil {
+		return def.Bounds[tier]
+	}
+	var hs []string
+	for h, m := range def.Rotate {
+		hs = append(hs, fmt.Sprintf("%s (1 in %d)", h, m))
+	}
+	sort.Strings(hs)
+	if tier == "quick" {
+		return fmt.Sprintf("a rotating sample of the instance list described next: of the instances of %s the quick tier runs those selected by VERIF_SEED plus the core messages (file_id, session, lap, record, event, device_info, activity, the unknown message number) — successive runs with different seeds cover the list; everything else in the list runs every time. Instance list: %v", strings.Join(hs, ", "), def.Bounds["quick"])
+	}
+	return fmt.Sprintf("the whole instance list: %v", def.Bounds["quick"])
+}
+
 func checkMain(args []string) int {
 	if len(args) < 1 {
 		fmt.Fprintln(os.Stderr, "usage: gosym check <property> [quick|thorough] [--replay path] [--mutant id]")
@@ -489,7 +506,14 @@ func checkMain(args []string) int {
 		meta = mr[0].Out
 	}
 	curProp = prop
-	jobs := def.Jobs(tier, meta)
+	jobTier := tier
+	if def.Rotate != nil {
+		jobTier = "quick" // thorough = the whole quick instance list
+	}
+	jobs := def.Jobs(jobTier, meta)
+	if tier == "quick" && def.Rotate != nil {
+		jobs = rotateJobs(jobs, def.Rotate, seed)
+	}
 	for i := range jobs {
 		jobs[i].Open = open
 		jobs[i].Prop = prop
@@ -787,7 +811,7 @@ func checkMain(args []string) int {
 		"ssa_instructions_interpreted":  steps,
 		"functions_encoded":             fl,
 		"stubs_used":                    sl,
-		"bounds":                        def.Bounds[tier],
+		"bounds":                        boundsText(def, tier),
 		"outside_claim":                 def.Outside,
 		"labels_reached":                reached,
 		"assertions_reached_paths":      assertPaths,
